@@ -12,8 +12,12 @@ RULE = ('one case = one generated program (1..4 DEF FN definitions with 0..4 par
         'duplicate/shadowing names, bodies over parameters, globals, literals, +, temporaries, forced collections, '
         'a failing subexpression and nested/self/mutually recursive FN calls; 3..9 LET/PRINT statements whose '
         'arguments convert, overflow or mismatch), run through a real Session; after EVERY statement all variables '
-        'of the name pool are dumped; non-trivial = the program contains at least one FN call; distinct = distinct '
-        'program text')
+        'of the name pool are dumped; plus statement HISTORIES interleaving DEF FN (re)definitions whose parameters '
+        'are written with and without type characters (several sharing a letter), DEFINT/DEFSNG/DEFDBL/DEFSTR over '
+        'letter ranges before the DEF, between DEF and first call and between calls, assignments and nested/failing '
+        'calls, run once as a program under ON ERROR and once statement by statement from direct mode without error '
+        'trap (and with CLEAR); there ALL four typed variables of every involved letter are dumped after every '
+        'statement; non-trivial = the program contains at least one FN call; distinct = distinct program text')
 EXPLANATION = ('theorems (PcbV.Props.C20 over PcbV.Model.UserFn on the C10 heap model): fn_frame_framed / fn_frame for every '
                'outcome with collections anywhere inside framed bodies, the framed class (gc, alloc, read, fail, bind), '
                'params_bound_during_body, arg_entry_is_converted_value, result_is_body_value, recursion_oom with '
@@ -23,9 +27,11 @@ EXPLANATION = ('theorems (PcbV.Props.C20 over PcbV.Model.UserFn on the C10 heap 
                'independent Python reference evaluator (dict environment, exact Fractions) predicts every printed value / '
                'error number and the complete variable dump after every statement, also for richer bodies (LEFT$, MID$, '
                'SPACE$, STRING$, LEN, -, conversions) in small string spaces (CLEAR ,n) where collections happen inside '
-               'bodies; D17 program over the critical CLEAR sizes; DEFtype-after-DEF cases; leak probe CLEAR:PRINT FRE("") '
+               'bodies; DEFtype histories (names completed at the time of USE) against model and reference; D17 program '
+               'over the critical CLEAR sizes; DEFtype-after-DEF cases; leak probe CLEAR:PRINT FRE("") '
                'and no String left in temp_values at the end')
-TRUSTED_BASE = ['model PcbV.Model.UserFn is a hand transcription of userfunctions.py UserFunction.evaluate/_evaluate '
+TRUSTED_BASE = ['model PcbV.Model.UserFn is a hand transcription of userfunctions.py UserFunction.evaluate/_evaluate, '
+                'UserFunctionManager.define/get and DataSegment.complete_name/deftype_ '
                 '(views on the evaluation stack are modelled as rooted pointer copies)',
                 'PcbV.Model.Heap (C10) for the string heap and its collector']
 ASSUMPTIONS = ['numeric values used by the generator are dyadic with small magnitude, exactly representable in '
@@ -48,10 +54,22 @@ def ty(name):
     return SIG[name[-1]]
 
 
+SIGCH = {'i': '%', 's': '!', 'd': '#', '$': '$'}
+LETTERS = 'ABCDEFGHIJKLMNOPQRSTUVWXYZ'
+
+
+def complete(dt, name):
+    """a name written without a type character gets the default type of its first letter"""
+    return name if name[-1] in SIG else name + SIGCH[dt.get(name[0], 's')]
+
+
 # ---------------------------------------------------------------------------------------------
 # expressions: nested lists (JSON-able); numbers are integers in quarter units
 #   ['n', t, q] ['s', text] ['v', name] ['+', a, b] ['gcE'] ['gcZ'] ['fail'] ['rep', n, ch]
-#   ['call', idx, [args]]      (modelled by Lean)
+#   ['call', name as written, [args]]      (modelled by Lean; the generators of whole programs use an index,
+#                                           replaced by lower())
+# history statements: ['L', name, e] ['P', e] ['T', type, first letter, last letter] ['D', fname, [params], body]
+#   (names as written: with or without type character) and ['CLEAR'] (direct-mode histories only)
 #   ['-', a, b] ['left', s, k] ['mid', s, i, k] ['space', n] ['len', s]   (oracle only)
 
 def num_text(t, q):
@@ -70,7 +88,7 @@ def num_text(t, q):
     return '(-%s)' % text if neg else text
 
 
-def to_basic(e, fns):
+def to_basic(e):
     k = e[0]
     if k == 'n':
         return num_text(e[1], e[2])
@@ -79,7 +97,7 @@ def to_basic(e, fns):
     if k == 'v':
         return e[1]
     if k in '+-':
-        return '(%s%s%s)' % (to_basic(e[1], fns), k, to_basic(e[2], fns))
+        return '(%s%s%s)' % (to_basic(e[1]), k, to_basic(e[2]))
     if k == 'gcE':
         return 'SPACE$(0*FRE(""))'
     if k == 'gcZ':
@@ -89,25 +107,53 @@ def to_basic(e, fns):
     if k == 'rep':
         return 'STRING$(%d,"%s")' % (e[1], e[2])
     if k == 'call':
-        name = 'FN%s%s' % (FNLETTER[e[1]] if e[1] < len(FNLETTER) else 'Q', fn_sigil_char(e[1], fns))
         if not e[2]:
-            return name
-        return '%s(%s)' % (name, ','.join(to_basic(a, fns) for a in e[2]))
+            return 'FN' + e[1]
+        return 'FN%s(%s)' % (e[1], ','.join(to_basic(a) for a in e[2]))
     if k == 'left':
-        return 'LEFT$(%s,%d)' % (to_basic(e[1], fns), e[2])
+        return 'LEFT$(%s,%d)' % (to_basic(e[1]), e[2])
     if k == 'mid':
-        return 'MID$(%s,%d,%d)' % (to_basic(e[1], fns), e[2], e[3])
+        return 'MID$(%s,%d,%d)' % (to_basic(e[1]), e[2], e[3])
     if k == 'space':
         return 'SPACE$(%d)' % e[1]
     if k == 'len':
-        return 'LEN(%s)' % to_basic(e[1], fns)
+        return 'LEN(%s)' % to_basic(e[1])
     raise ValueError(k)
 
 
-def fn_sigil_char(idx, fns):
-    if idx < len(fns):
-        return {'i': '%', 's': '!', 'd': '#', '$': '$'}[fns[idx]['sigil']]
-    return '!'
+DEFWORD = {'i': 'DEFINT', 's': 'DEFSNG', 'd': 'DEFDBL', '$': 'DEFSTR'}
+
+
+def stmt_text(st):
+    """a history statement as BASIC text (PRINT goes to the output file)"""
+    if st[0] == 'P':
+        return 'PRINT#1,"[";%s;"]"' % to_basic(st[1])
+    if st[0] == 'L':
+        return '%s=%s' % (st[1], to_basic(st[2]))
+    if st[0] == 'T':
+        return '%s %s' % (DEFWORD[st[1]], st[2] if st[2] == st[3] else '%s-%s' % (st[2], st[3]))
+    if st[0] == 'D':
+        return 'DEF FN%s%s=%s' % (st[1], '(%s)' % ','.join(st[2]) if st[2] else '', to_basic(st[3]))
+    if st[0] == 'CLEAR':
+        return 'CLEAR'
+    raise ValueError(st[0])
+
+
+def lower(fns, stmts):
+    """(function table, statements with calls by index) -> one history: DEF FN statements first, calls by name"""
+    names = ['%s%s' % (FNLETTER[i], SIGCH[f['sigil']]) for i, f in enumerate(fns)]
+
+    def ex(e):
+        if e[0] == 'call':
+            return ['call', names[e[1]] if e[1] < len(names) else 'Q!', [ex(a) for a in e[2]]]
+        return [ex(x) if isinstance(x, list) and x and isinstance(x[0], str) and x[0] in KINDS else x for x in e]
+    hist = [['D', names[i], list(f['params']), ex(f['body'])] for i, f in enumerate(fns)]
+    for st in stmts:
+        hist.append([st[0]] + list(st[1:-1]) + [ex(st[-1])])
+    return hist
+
+
+KINDS = ('n', 's', 'v', '+', '-', 'gcE', 'gcZ', 'fail', 'rep', 'call', 'left', 'mid', 'space', 'len')
 
 
 def hexname(name):
@@ -141,11 +187,22 @@ class Proto(object):
         if k == 'rep':
             return ['R%d.%d' % (e[1], ord(e[2]))]
         if k == 'call':
-            out = ['C%d.%d' % (e[1], len(e[2]))]
+            out = ['C%s.%d' % (hexname(e[1]), len(e[2]))]
             for a in e[2]:
                 out += self.expr(a)
             return out
         raise ValueError(k)
+
+    def stmt(self, st):
+        if st[0] == 'P':
+            return 'P:' + ','.join(self.expr(st[1]))
+        if st[0] == 'L':
+            return 'L:%s:%s' % (hexname(st[1]), ','.join(self.expr(st[2])))
+        if st[0] == 'T':
+            return 'T:%s:%d:%d' % (st[1], LETTERS.index(st[2]), LETTERS.index(st[3]))
+        if st[0] == 'D':
+            return 'D:%s:%s:%s' % (hexname(st[1]), ','.join(hexname(x) for x in st[2]) or '-', ','.join(self.expr(st[3])))
+        raise ValueError(st[0])
 
 
 # ---------------------------------------------------------------------------------------------
@@ -176,9 +233,11 @@ def default(name):
 
 
 class Ref(object):
-    def __init__(self, fns):
-        self.fns = fns
-        self.env = {}
+    def __init__(self):
+        self.fns = {}           # complete function name -> (object id, parameters as written, body)
+        self.nobj = 0
+        self.dt = {}            # letter -> default type (missing: single)
+        self.env = {}           # complete variable name -> value
         self.active = set()
         self.calls = 0
         self.depth = 0
@@ -194,7 +253,7 @@ class Ref(object):
         if k == 's':
             return e[1]
         if k == 'v':
-            return self.get(e[1])
+            return self.get(complete(self.dt, e[1]))
         if k in '+-':
             a = self.ev(e[1])
             b = self.ev(e[2])
@@ -236,32 +295,31 @@ class Ref(object):
             return self.call(e[1], e[2])
         raise ValueError(k)
 
-    def call(self, idx, args):
-        if idx >= len(self.fns):
+    def call(self, fname, args):
+        full = complete(self.dt, fname)
+        if full not in self.fns:
             raise BErr(18)
-        f = self.fns[idx]
+        obj, params, body = self.fns[full]
         self.calls += 1
+        names = [complete(self.dt, p) for p in params]
         vals = []
-        for name, a in zip(f['params'], args):
+        for name, a in zip(names, args):
             vals.append(convert(ty(name), self.ev(a)))
-        if idx in self.active:
+        if obj in self.active:
             raise BErr(7)
-        saved = [(name, self.get(name)) for name in f['params']]
         before = dict(self.env)
-        for name, v in zip(f['params'], vals):
+        for name, v in zip(names, vals):
             self.env[name] = v
-        self.active.add(idx)
+        self.active.add(obj)
         self.depth += 1
         self.maxdepth = max(self.maxdepth, self.depth)
         try:
-            return convert(f['sigil'], self.ev(f['body']))
+            return convert(ty(full), self.ev(body))
         finally:
             self.depth -= 1
-            self.active.discard(idx)
+            self.active.discard(obj)
             # the property: every variable has the value it had before the call
             self.env = before
-            for name, v in saved:
-                self.env.setdefault(name, v)
 
     def stmt(self, st):
         """returns ('k',) / ('n', Fraction) / ('s', str) / ('e', code)"""
@@ -269,8 +327,20 @@ class Ref(object):
             if st[0] == 'P':
                 v = self.ev(st[1])
                 return ('s', v) if isinstance(v, str) else ('n', v)
-            v = convert(ty(st[1]), self.ev(st[2]))
-            self.env[st[1]] = v
+            if st[0] == 'T':
+                for c in LETTERS[LETTERS.index(st[2]):LETTERS.index(st[3]) + 1]:
+                    self.dt[c] = st[1]
+                return ('k',)
+            if st[0] == 'D':
+                self.nobj += 1
+                self.fns[complete(self.dt, st[1])] = (self.nobj, st[2], st[3])
+                return ('k',)
+            if st[0] == 'CLEAR':
+                self.fns, self.dt, self.env = {}, {}, {}
+                return ('k',)
+            name = complete(self.dt, st[1])
+            v = convert(ty(name), self.ev(st[2]))
+            self.env[name] = v
             return ('k',)
         except BErr as e:
             return ('e', e.code)
@@ -434,30 +504,27 @@ class Gen(object):
 # ---------------------------------------------------------------------------------------------
 # running a program on the real interpreter
 
-def fn_header(i, f):
-    name = 'FN%s%s' % (FNLETTER[i], fn_sigil_char(i, [f] * (i + 1)))
-    if f['params']:
-        name += '(%s)' % ','.join(f['params'])
-    return name
-
-
-def build_lines(fns, stmts, pre=()):
+def build_lines(hist, pool, pre=(), trap=True):
+    """the program of a history.  trap: one run under ON ERROR GOTO, a dump of the pool after every statement;
+    otherwise every statement is its own stop point (driven from direct mode, see run_steps)"""
     # the output goes to a file on a temporary drive (three times faster than the text screen)
+    dump = 'PRINT#1,"{";%s;"}@B"' % ';"|";'.join(pool)
+    if not trap:
+        lines = []
+        for k, st in enumerate(hist):
+            lines.append('%d %s' % (100 + 2 * k, stmt_text(st)))
+            lines.append('%d STOP' % (101 + 2 * k))
+        return lines
     lines = ['1 ON ERROR GOTO 9500', '2 OPEN "OUT.TXT" FOR OUTPUT AS 1']
     lines += list(pre)
-    for i, f in enumerate(fns):
-        lines.append('%d DEF %s=%s' % (10 + i, fn_header(i, f), to_basic(f['body'], fns)))
     lines.append('90 PRINT#1,"@B"')
     n = 100
-    for st in stmts:
-        if st[0] == 'P':
-            lines.append('%d PRINT#1,"[";%s;"]"' % (n, to_basic(st[1], fns)))
-        else:
-            lines.append('%d %s=%s' % (n, st[1], to_basic(st[2], fns)))
+    for st in hist:
+        lines.append('%d %s' % (n, stmt_text(st)))
         lines.append('%d GOSUB 9000' % (n + 1))
         n += 2
     lines.append('8000 CLOSE:END')
-    lines.append('9000 PRINT#1,"{";%s;"}@B":RETURN' % ';"|";'.join(POOL))
+    lines.append('9000 %s:RETURN' % dump)
     lines.append('9500 PRINT#1,"@E";ERR:RESUME NEXT')
     return lines
 
@@ -500,7 +567,7 @@ def parse_num(text):
         return None
 
 
-def parse_output(out, nstmts):
+def parse_output(out, pool):
     """-> list of (outcome, dump) per statement; outcome as in Ref.stmt, dump = dict name -> value;
     None where the output could not be understood"""
     text = out.decode('latin-1').replace('\r', '').replace('\n', '').replace('\xff', '')
@@ -514,9 +581,9 @@ def parse_output(out, nstmts):
         if m:
             head = ch[:m.start()]
             parts = m.group(1).split('|')
-            if len(parts) == len(POOL):
+            if len(parts) == len(pool):
                 dump = {}
-                for name, p in zip(POOL, parts):
+                for name, p in zip(pool, parts):
                     dump[name] = p if name[-1] == '$' else parse_num(p)
         me = re.search(r'@E\s*(\d+)', head)
         if me:
@@ -546,11 +613,11 @@ def show_outcome(o):
     return o[0] if o[0] == 'k' else '?%r' % (o[1],)
 
 
-def show_dump(d):
+def show_dump(d, pool):
     if d is None:
         return '?'
     parts = []
-    for name in POOL:
+    for name in pool:
         v = d[name]
         if name[-1] == '$':
             parts.append(hexname(v) or '-')
@@ -575,6 +642,42 @@ def run_program(box, lines, clear=None):
     except Exception as e:            # a host exception escaping the interpreter
         return None, '%s: %s' % (type(e).__name__, e), None
     probe = None
+    try:
+        probe = box.execute(b'CLEAR:PRINT "F";FRE("")')
+    except Exception as e:
+        return out, None, 'EXC %s: %s' % (type(e).__name__, e)
+    return out, None, probe
+
+
+def run_steps(box, case, lines):
+    """the history statement by statement from direct mode, no ON ERROR: DEF FN lines (and a random part of the
+    others) are executed with GOTO <line> up to the STOP behind them, the rest is typed in directly; an error ends
+    the statement with a message, which is recorded in the output file like the trap handler does"""
+    messages = {k.decode('latin-1'): v for k, v in basic.error_table().items()}
+    hist, pool = case['hist'], case['pool']
+    dump = 'PRINT#1,"{";%s;"}@B"' % ';"|";'.join(pool)
+    try:
+        box.execute(b'NEW')
+        for l in lines:
+            box.execute(l.encode('latin-1'))
+        box.execute(b'OPEN "OUT.TXT" FOR OUTPUT AS 1')
+        box.execute(b'PRINT#1,"@B"')
+        for k, st in enumerate(hist):
+            if st[0] == 'D' or case['direct'][k] == 0:
+                scr = box.execute(b'GOTO %d' % (100 + 2 * k))
+            else:
+                scr = box.execute(stmt_text(st).encode('latin-1'))
+            text = scr.decode('latin-1').replace('\xff', '')
+            for ln in text.replace('\r', '').split('\n'):
+                msg = re.sub(r' in \d+$', '', ln.strip())
+                if msg in messages and not msg.startswith('Break'):
+                    box.execute(b'PRINT#1,"@E";%d' % messages[msg])
+                    break
+            box.execute(dump.encode('latin-1'))
+        box.execute(b'CLOSE')
+        out = box.output() + b'@SCREEN'
+    except Exception as e:            # a host exception escaping the interpreter
+        return None, '%s: %s' % (type(e).__name__, e), None
     try:
         probe = box.execute(b'CLEAR:PRINT "F";FRE("")')
     except Exception as e:
@@ -619,36 +722,39 @@ def classify(stmts):
 
 
 def check_case(ctx, session, case, modelled):
-    """Run one program: oracle against the reference, and (modelled) produce the strings for the Lean comparison.
+    """Run one history: oracle against the reference, and (modelled) produce the strings for the Lean comparison.
     Returns (impl_reply or None, protocol line or None)."""
-    fns, stmts, clear = case['fns'], case['stmts'], case.get('clear')
-    lines = build_lines(fns, stmts, case.get('pre', ()))
-    ref_fns = case.get('ref_fns', fns)
-    out, exc, probe = run_program(session, lines, clear)
+    stmts, pool, clear = case['hist'], case['pool'], case.get('clear')
+    trap = case.get('mode', 'trap') == 'trap'
+    lines = build_lines(stmts, pool, case.get('pre', ()), trap)
+    if trap:
+        out, exc, probe = run_program(session, lines, clear)
+    else:
+        out, exc, probe = run_steps(session, case, lines)
     label = case.get('label', 'gen')
-    ctx.case('\n'.join(lines) + '/%s' % clear)
+    ctx.case('\n'.join(lines) + '/%s/%s' % (clear, case.get('direct')))
     if exc is not None:
         ctx.count('host-exception')
         ctx.fail('host-exception:' + exc.split(':')[0], case, 'host exception escaped Session.execute: %s\nprogram:\n%s'
                  % (exc, '\n'.join(lines)))
         return None, None
-    got = parse_output(out, len(stmts))
-    ref = Ref(ref_fns)
+    got = parse_output(out, pool)
+    ref = Ref()
     tolerate_mem = clear is not None
     impl_parts = []
-    prev = {n: default(n) for n in POOL}
+    prev = {n: default(n) for n in pool}
     ok = True
     if len(got) != len(stmts):
         ctx.fail('output-shape', case, 'expected %d statement blocks, got %d: %r\nprogram:\n%s'
                  % (len(stmts), len(got), out, '\n'.join(lines)))
         return None, None
     for k, (st, (outcome, dump)) in enumerate(zip(stmts, got)):
+        target = complete(ref.dt, st[1]) if st[0] == 'L' else None
         exp = ref.stmt(st)
-        expdump = {n: ref.get(n) for n in POOL}
-        impl_parts.append('%s/%s' % (show_outcome(outcome), show_dump(dump)))
-        text = to_basic(st[-1], fns)
-        stext = ('PRINT ' + text) if st[0] == 'P' else '%s=%s' % (st[1], text)
-        ctx.count('stmt:' + ('print' if st[0] == 'P' else 'let'))
+        expdump = {n: ref.get(n) for n in pool}
+        impl_parts.append('%s/%s' % (show_outcome(outcome), show_dump(dump, pool)))
+        stext = stmt_text(st)
+        ctx.count('stmt:' + {'P': 'print', 'L': 'let', 'T': 'deftype', 'D': 'def-fn', 'CLEAR': 'clear'}[st[0]])
         if outcome[0] == 'e':
             ctx.count('err:' + ERRNAMES.get(outcome[1], str(outcome[1])))
         else:
@@ -658,7 +764,9 @@ def check_case(ctx, session, case, modelled):
             ctx.fail('dump-unreadable', case, 'statement %d (%s): dump not readable in %r' % (k, stext, out))
             ok = False
             break
-        changed = [n for n in POOL if dump[n] != prev[n] and not (st[0] == 'L' and n == st[1] and outcome[0] != 'e')]
+        changed = [n for n in pool if dump[n] != prev[n] and not (n == target and outcome[0] != 'e')]
+        if st[0] == 'CLEAR':
+            changed = []
         if changed:
             kind = 'error' if outcome[0] == 'e' else 'ok'
             ctx.fail('frame:%s:%s' % (kind, ','.join(sorted(set(c[-1] for c in changed)))), case,
@@ -691,7 +799,7 @@ def check_case(ctx, session, case, modelled):
             expdump = dict(dump)
         # 3. the complete dump equals the reference environment
         if ok and dump != expdump:
-            diff = [n for n in POOL if dump[n] != expdump[n]]
+            diff = [n for n in pool if dump[n] != expdump[n]]
             ctx.fail('dump:%s' % ','.join(sorted(set(c[-1] for c in diff))), case,
                      'statement %d (%s): variables %s read %s, expected %s\nprogram:\n%s'
                      % (k, stext, diff, [dump[c] for c in diff], [expdump[c] for c in diff], '\n'.join(lines)))
@@ -712,19 +820,202 @@ def check_case(ctx, session, case, modelled):
     if not modelled:
         return None, None
     p = Proto()
-    fparts = []
-    for f in fns:
-        fparts.append('%s:%s:%s' % (f['sigil'], ','.join(hexname(x) for x in f['params']) or '-', ','.join(p.expr(f['body']))))
-    sparts = []
-    for st in stmts:
-        if st[0] == 'P':
-            sparts.append('P:' + ','.join(p.expr(st[1])))
-        else:
-            sparts.append('L:%s:%s' % (hexname(st[1]), ','.join(p.expr(st[2]))))
+    sparts = [p.stmt(st) for st in stmts]
+    if len(p.code) > 90:
+        return None, None
     code = ','.join('%d=%s' % (a, hexname(t)) for a, t in p.code) or '-'
-    line = 'run 1000 30000 65534 512 %s %s %s %s' % (code, ';'.join(fparts) or '-', ','.join(hexname(n) for n in POOL),
-                                                     ';'.join(sparts))
+    line = 'run 1000 30000 65534 512 %s %s %s' % (code, ','.join(hexname(n) for n in pool), ';'.join(sparts))
     return 'ok ' + ';'.join(x + '/0.0' for x in impl_parts), line
+
+
+# ---------------------------------------------------------------------------------------------
+# histories with default-type statements: names written without a type character are completed when USED
+
+class HistGen(object):
+    """DEF FN (re)definitions with parameters written with and without type characters, DEFINT/DEFSNG/DEFDBL/
+    DEFSTR over letter ranges before the DEF, between DEF and first call and between calls, assignments to all
+    four typed variables of the involved letters, nested and failing calls"""
+
+    def __init__(self, rng, nofail):
+        self.rng = rng
+        self.nofail = nofail
+        r = rng
+        self.letters = r.choice(['XYZ', 'XY', 'PQ', 'XZ', 'PQT', 'X', 'YZ'])
+        self.pool = [l + c for l in self.letters for c in '%!#$']
+        self.dt = {}
+        self.fns = {}            # complete name -> parameters as written (what the call will find)
+        self.written = []        # function names as written in some DEF FN
+        self.arity = {}
+        self.hist = []
+        self.direct = []
+
+    def cur(self, name):
+        return complete(self.dt, name)
+
+    def value(self, t):
+        r = self.rng
+        if t == '$':
+            return ['+', ['s', r.choice(WORDS)], ['s', r.choice(['k', 'lm', 'w', 'uv'])]] if r.random() < 0.6 \
+                else ['s', r.choice(WORDS)]
+        q = r.choice(SMALL_NUMS + [20, 24, 36, 44, 52, 60])
+        if t == 'i':
+            q = (q // 4) * 4
+        return ['n', t if t != 'i' or -131072 <= q <= 131068 else 's', q]
+
+    def name_of_type(self, want_str, params):
+        """a variable (as written) that currently is / is not a string"""
+        r = self.rng
+        cand = []
+        for l in self.letters:
+            for w in (l, l + '%', l + '!', l + '#', l + '$'):
+                if (ty(self.cur(w)) == '$') == want_str:
+                    cand.append(w)
+        pc = [p for p in params if (ty(self.cur(p)) == '$') == want_str]
+        if pc and r.random() < 0.6:
+            return r.choice(pc)
+        return r.choice(cand) if cand else None
+
+    def expr(self, want_str, depth, params):
+        r = self.rng
+        c = r.random()
+        if depth <= 0 or c < 0.35:
+            n = self.name_of_type(want_str, params)
+            if n is not None and r.random() < 0.75:
+                return ['v', n]
+            return self.value('$' if want_str else r.choice('isd'))
+        if c < 0.6:
+            return ['+', self.expr(want_str, depth - 1, params), self.expr(want_str, depth - 1, params)]
+        if c < 0.68:
+            return ['+', self.expr(want_str, depth - 1, params), ['gcE'] if want_str else ['gcZ']]
+        if c < 0.73 and not want_str and not self.nofail:
+            return ['+', self.expr(False, depth - 1, params), ['fail']]
+        if c < 0.9 and self.written:
+            return self.call(depth - 1, params, want_str)
+        return self.value('$' if want_str else r.choice('isd'))
+
+    def call(self, depth, params, want_str=None):
+        r = self.rng
+        names = sorted(set(self.written))
+        if want_str is not None:
+            cand = [n for n in names if (ty(self.cur(n)) == '$') == want_str]
+            names = cand or names
+        defined = [n for n in names if self.cur(n) in self.fns]
+        if defined and r.random() < 0.93:
+            names = defined
+        fname = r.choice(names)
+        args = []
+        # a name that no longer resolves to a definition: Undefined user function (raised before the arguments)
+        for p in self.fns.get(self.cur(fname), []):
+            t = ty(self.cur(p))
+            c = r.random()
+            if c < 0.07:
+                args.append(self.expr(t != '$', 0, params))          # Type mismatch
+            elif t == 'i' and c < 0.15:
+                args.append(['n', r.choice('sd'), r.choice(EDGE_NUMS)])  # around the Integer limits: Overflow
+            elif t != '$' and c < 0.25:
+                args.append(['n', r.choice('sd'), r.choice([10, -10, 6, -6, 2, 14])])
+            else:
+                args.append(self.expr(t == '$', depth, params))
+        return ['call', fname, args]
+
+    def add(self, st):
+        self.hist.append(st)
+        self.direct.append(self.rng.choice([0, 1]))
+        if st[0] == 'T':
+            for c in LETTERS[LETTERS.index(st[2]):LETTERS.index(st[3]) + 1]:
+                self.dt[c] = st[1]
+
+    def deftype(self):
+        r = self.rng
+        c = r.random()
+        l = r.choice(self.letters)
+        if c < 0.6:
+            lo = hi = l
+        elif c < 0.8:
+            lo, hi = min(self.letters), max(self.letters)
+        elif c < 0.9:
+            lo, hi = 'A', 'Z'
+        else:
+            lo, hi = 'A', r.choice('DM')
+        self.add(['T', r.choice('isd$'), lo, hi])
+
+    def define(self, fname=None):
+        r = self.rng
+        if fname is None:
+            fname = r.choice('ABC') + r.choice(['', '', '%', '!', '#', '$'])
+        # every definition under one letter has the same number of parameters, so that a call written earlier
+        # stays well-formed whatever definition its name resolves to later (a wrong count is a Syntax error)
+        n = self.arity.setdefault(fname[0], r.choice([0, 1, 1, 2, 2, 3, 4]))
+        params = []
+        for _ in range(n):
+            l = r.choice(self.letters)
+            params.append(l + r.choice(['', '', '', '%', '!', '#', '$']))
+        if n >= 2 and r.random() < 0.3:
+            params[-1] = params[0][0] + r.choice(['', '%', '!', '#', '$'])     # shares the letter
+        want_str = ty(self.cur(fname)) == '$'
+        if r.random() < 0.06:
+            want_str = not want_str
+        # calls inside the body find the new definition
+        self.fns[self.cur(fname)] = params
+        self.written.append(fname)
+        if params and r.random() < 0.3:
+            body = ['v', r.choice(params)]
+        else:
+            body = self.expr(want_str, r.choice([0, 1, 1, 2]), params)
+        self.add(['D', fname, params, body])
+
+    def assign_all(self):
+        """distinct values in all four typed variables of the involved letters"""
+        r = self.rng
+        names = list(self.pool)
+        r.shuffle(names)
+        for nm in names:
+            if r.random() < 0.8:
+                self.add(['L', nm, self.value(ty(nm))])
+
+    def use(self):
+        r = self.rng
+        e = self.call(r.choice([0, 1, 2]), [])
+        t = ty(self.cur(e[1]))
+        if r.random() < 0.15:
+            e = ['+', self.expr(t == '$', 0, []), e]                # an operand kept on the stack
+        if r.random() < 0.5:
+            self.add(['P', e])
+        else:
+            cand = [w for l in self.letters for w in (l, l + SIGCH[t])]
+            tgt = r.choice(cand) if r.random() < 0.85 else r.choice(self.pool)
+            self.add(['L', tgt, e])
+
+    def history(self, allow_clear=False):
+        r = self.rng
+        if r.random() < 0.4:
+            self.deftype()                  # before the DEF
+        for _ in range(r.choice([1, 1, 2, 3])):
+            self.define()
+        if r.random() < 0.4:
+            self.deftype()                  # between DEF and the first call
+        self.assign_all()
+        for _ in range(r.choice([4, 5, 6, 8])):
+            c = r.random()
+            if c < 0.55:
+                self.use()
+            elif c < 0.8:
+                self.deftype()              # between calls
+                # the caller's variable of the new default type gets a fresh value
+                l = r.choice(self.letters)
+                self.add(['L', l, self.value(ty(self.cur(l)))])
+                self.use()
+            elif c < 0.9:
+                self.define(r.choice(self.written) if r.random() < 0.7 else None)   # redefinition
+            elif allow_clear and c < 0.93:
+                self.add(['CLEAR'])
+                self.dt, self.fns, self.written = {}, {}, []
+                self.define()
+                self.assign_all()
+            else:
+                l = r.choice(self.pool)
+                self.add(['L', l, self.value(ty(l))])
+        return self.hist
 
 
 # ---------------------------------------------------------------------------------------------
@@ -862,39 +1153,85 @@ def small_memory_clear(session, lines, slack):
     return free
 
 
+def as_case(label, fns, stmts):
+    return {'label': label, 'hist': lower(fns, stmts), 'pool': POOL}
+
+
+def directed_histories():
+    """default-type statements before the DEF, between DEF and first call, between calls; redefinition"""
+    N = lambda t, q: ['n', t, q]
+    V = lambda n: ['v', n]
+    S = lambda t: ['s', t]
+    pool = [l + c for l in 'XP' for c in '%!#$']
+    hs = []
+    hs.append([['D', 'A', ['X'], ['+', V('X'), V('X')]], ['L', 'R!', ['call', 'A', [N('i', 4)]]], ['T', 'i', 'X', 'X'],
+               ['L', 'X', N('i', 20)], ['L', 'X!', N('s', 28)], ['L', 'R!', ['call', 'A', [N('i', 12)]]],
+               ['T', '$', 'X', 'Z'], ['L', 'X', ['+', S('ca'), S('ller')]], ['P', ['call', 'A', [['+', S('ar'), S('g')]]]],
+               ['P', ['call', 'A', [N('i', 4)]]], ['T', 'd', 'A', 'Z'], ['P', ['call', 'A', [N('i', 4)]]],
+               ['P', ['call', 'A!', [N('d', 10)]]]])
+    hs.append([['T', 'i', 'P', 'P'], ['D', 'B', ['P', 'P!', 'X$'], ['+', V('P'), V('P!')]], ['T', 'd', 'P', 'P'],
+               ['L', 'P', N('d', 6)], ['L', 'P%', N('i', 8)], ['L', 'P!', N('s', 12)],
+               ['P', ['call', 'B', [N('i', 36), N('i', 4), S('q')]]], ['P', ['call', 'B', [N('i', 36), ['fail'], S('q')]]],
+               ['P', ['call', 'B', [N('i', 36), N('i', 4), N('i', 4)]]], ['T', 's', 'P', 'P'],
+               ['D', 'B', ['P'], V('P')], ['P', ['call', 'B', [N('s', 2)]]], ['T', 'i', 'P', 'P'], ['L', 'P', N('i', 40)],
+               ['P', ['call', 'B', [N('s', 10)]]], ['P', ['call', 'B', [N('s', 160000)]]]])
+    return [{'label': 'deftype-directed', 'hist': h, 'pool': pool + ['R!']} for h in hs]
+
+
 def run(ctx):
     rng = ctx.rng
     quick = ctx.quick
     # --- A. modelled programs, default memory: Lean correspondence + reference oracle --------------------
-    n_model = 400 if quick else 3000
+    n_model = 220 if quick else 2000
+    n_hist = 160 if quick else 1500
     session = Box()
     cases, impls, plines = [], [], []
+
+    def modelled(case):
+        impl, line = check_case(ctx, session, case, True)
+        if impl is not None:
+            cases.append({'label': case['label'], 'hist': case['hist']})
+            impls.append(impl)
+            plines.append(line)
     try:
-        for case in directed_cases():
-            ctx.count('directed:' + case['label'])
-            impl, line = check_case(ctx, session, case, True)
-            if impl is not None:
-                cases.append(case['label'])
-                impls.append(impl)
-                plines.append(line)
+        for c in directed_cases():
+            ctx.count('directed:' + c['label'])
+            modelled(as_case(c['label'], c['fns'], c['stmts']))
+        for case in directed_histories():
+            ctx.count('directed:deftype-history')
+            modelled(case)
+            steps = dict(case, mode='steps', label='deftype-directed-steps',
+                         hist=[st for st in case['hist'] if 'fail' not in repr(st)])
+            steps['direct'] = [k % 2 for k in range(len(steps['hist']))]
+            check_case(ctx, session, steps, False)
         for _ in range(n_model):
             g = Gen(rng, rich=False)
             fns, stmts = g.program()
-            case = {'label': 'gen', 'fns': fns, 'stmts': stmts}
             ctx.count('modelled-programs')
             ctx.count('calls-in-program:%d' % min(classify(stmts + [['x', f['body']] for f in fns]), 12))
-            impl, line = check_case(ctx, session, case, True)
-            if impl is not None:
-                cases.append({'fns': fns, 'stmts': stmts})
-                impls.append(impl)
-                plines.append(line)
+            modelled(as_case('gen', fns, stmts))
+        # --- D. histories with DEFtype statements and redefinitions ---------------------------------------
+        for k in range(n_hist):
+            steps = k % 3 == 2
+            g = HistGen(rng, nofail=steps)
+            hist = g.history(allow_clear=steps)
+            case = {'label': 'deftype-history', 'hist': hist, 'pool': g.pool}
+            ctx.count('deftype-histories')
+            ctx.count('deftype-statements:%d' % min(sum(1 for st in hist if st[0] == 'T'), 6))
+            if steps:
+                # statement by statement from direct mode, no error trap (oracle only)
+                case.update(mode='steps', direct=g.direct, label='deftype-history-steps')
+                ctx.count('deftype-histories:steps')
+                check_case(ctx, session, case, False)
+            else:
+                modelled(case)
     finally:
         session.close()
     ctx.log('%d modelled programs run' % len(cases))
     for i in range(0, len(cases), 200):
         ctx.compare(cases[i:i + 200], impls[i:i + 200], plines[i:i + 200], label='program')
     # --- B. richer programs in small string spaces: reference oracle only -------------------------------
-    n_rich = 160 if quick else 1000
+    n_rich = 110 if quick else 800
     session = None
     total = None
     try:
@@ -902,10 +1239,9 @@ def run(ctx):
             g = Gen(rng, rich=True)
             fns, stmts = g.program()
             # strings in string space, garbage, and repeated calls so that collections fall inside bodies
-            pre = []
             slack = rng.choice([100, 130, 160, 200, 260, 300, 350, 420, 500, 650, 1000])
-            case = {'label': 'small-memory', 'fns': fns, 'stmts': stmts + stmts[-3:], 'pre': pre}
-            lines = build_lines(fns, case['stmts'], pre)
+            case = as_case('small-memory', fns, stmts + stmts[-3:])
+            lines = build_lines(case['hist'], case['pool'])
             for attempt in range(2):
                 if session is None:
                     session = Box()
@@ -941,7 +1277,7 @@ def replay(ctx, payload):
         run_d17(sub, case['d17'])
     elif 'deftype' in case:
         deftype_cases(sub)
-    elif 'fns' in case:
+    elif 'hist' in case:
         s = Box()
         try:
             check_case(sub, s, case, False)
